@@ -152,7 +152,13 @@ func init() {
 		}
 		return mkSymVal(types.Int, mkIte(args[0].(sym).e, mkConst(1, 64), mkConst(0, 64)))
 	}
-	externals[rt+"Observe"] = noop
+	externals[rt+"Observe"] = func(fr *frame, args []value) value {
+		p := fr.i.path
+		if len(p.observed) < 64 {
+			p.observed = append(p.observed, goString(normStr(fr.i.sprint(fr, args[0].([]value), false, fmtMode{lenient: true}))))
+		}
+		return nil
+	}
 	externals[rt+"Symbolic"] = func(fr *frame, args []value) value { return true }
 	externals[rt+"Concrete"] = func(fr *frame, args []value) value {
 		// Concrete(x int) int: fork over all feasible values
@@ -538,6 +544,36 @@ func init() {
 	externals["(*strings.Builder).String"] = func(fr *frame, args []value) value {
 		b, _ := (*sbBuf(args[0])).([]value)
 		return normStr(symstr(b))
+	}
+	// strings.Replacer: the byte-table implementation indexes 256-entry tables of slices
+	// with each input byte (a 256-way fork per symbolic byte); model the documented
+	// semantics instead: scan left to right, at each position the first old string (in
+	// argument order) that matches is replaced, matches do not overlap.
+	externals["(*strings.Replacer).Replace"] = func(fr *frame, args []value) value {
+		rep := (*cell(args[0])).(structure)
+		oldnew, _ := rep[len(rep)-1].([]value)
+		s := toSymstr(args[1])
+		var out symstr
+		for i := 0; i < len(s); {
+			matched := false
+			for p := 0; p+1 < len(oldnew); p += 2 {
+				old := toSymstr(oldnew[p])
+				if len(old) == 0 {
+					panic(engineAbort{"unsupported: strings.Replacer with an empty old string"})
+				}
+				if i+len(old) <= len(s) && fr.i.truth(strEq(s[i:i+len(old)], old)) {
+					out = append(out, toSymstr(oldnew[p+1])...)
+					i += len(old)
+					matched = true
+					break
+				}
+			}
+			if !matched {
+				out = append(out, s[i])
+				i++
+			}
+		}
+		return normStr(out)
 	}
 	externals["strings.Clone"] = func(fr *frame, args []value) value { return args[0] }
 	externals["internal/stringslite.Clone"] = externals["strings.Clone"]
